@@ -405,6 +405,15 @@ def run_property(prop_id, tier, seed, jobs):
         lines.append("VIOLATION property=%s replay=%s" % (prop_id, os.path.relpath(path, ROOT) if OUT_ROOT == ROOT else path))
         lines.append("  signature=%s detail=%s" % (sig, json.dumps(v["findings"][0]["detail"])[:600]))
         rc = 1
+    # smallest witness of every known finding reproduced in this run (scratch output; tools/keep_known_witness.py copies
+    # them into regress/<property>/known__*.json so that every run shows the KNOWN-FINDING line of every listed finding)
+    wdir = os.path.join(OUT_ROOT, "known_witness", prop_id)
+    for sig, e in m["known_hits"].items():
+        if e.get("witness") is not None and e.get("size", 0) > 0:
+            os.makedirs(wdir, exist_ok=True)
+            with open(os.path.join(wdir, "known__%s.json" % hashlib.sha1(sig.encode()).hexdigest()[:12]), "w") as fh:
+                json.dump({"property": prop_id, "signature": sig, "known_finding": True, "case": e["witness"], "seed": seed,
+                           "tier": tier}, fh, indent=1)
     write_evidence(mod, prop_id, tier, seed, m, wall, len(by_sig), known, reg_n)
     for ln in lines:
         print(ln)
